@@ -108,6 +108,9 @@ def run_check(prop, P, args):
                 o["function"] = r["function"]
                 o["hash_changed"] = base.get("hashes", {}).get(r["function"]) != r.get("hash")
                 o["no_fingerprint"] = r.get("hash") is None
+                # ghost anchors: the same statement text occurs a different number of times than on the baseline tree
+                ba = base.get("anchors", {}).get(r["function"])
+                o["anchor_drift"] = ba is not None and r.get("anchor_counts") is not None and ba != r.get("anchor_counts")
                 o["item_kind"] = r.get("kind")
                 failed.append(o)
         fn_summary.append({"function": r["function"], "obligations": len(r["obligations"]), "discharged": n_ok,
@@ -143,7 +146,8 @@ def run_check(prop, P, args):
                 print("   ", e[0], e[1][0], e[1][1][:300])
             return 3
         base_all[prop] = {"discharged": sorted(o["name"] for r in results for o in r["obligations"]),
-                          "files": files_now, "hashes": {r["function"]: r.get("hash") for r in results}}
+                          "files": files_now, "hashes": {r["function"]: r.get("hash") for r in results},
+                          "anchors": {r["function"]: r.get("anchor_counts") for r in results if r.get("anchor_counts") is not None}}
         with open(os.path.join(VERIF, "baseline_obligations.json"), "w") as f:
             json.dump(base_all, f, indent=1, sort_keys=True)
         print("baseline for %s: %d obligations" % (prop, obligations))
@@ -238,15 +242,20 @@ def run_check(prop, P, args):
             #   contract clauses  - postconditions, frame conditions, preconditions of callees, safety (index / division /
             #                       None / unreachable raise), definite static breaches: a change that makes one of these
             #                       fail has changed the behaviour the contract describes;
-            #   proof-internal    - loop invariants (entry / preservation), hints, lemma hypotheses: when they fail on a
-            #                       changed body the PROOF no longer applies (a harmless restructuring does that too), which
-            #                       is no verdict about the property - undecided, the run-time channel decides;
+            #   iteration clauses - preservation of a loop invariant, and the entry of a loop nested inside another loop of
+            #                       the function: they fail in the middle of an iteration of a loop whose skeleton (number,
+            #                       kind, variable of the loops, all ghost anchors) still matches the contract - otherwise
+            #                       the item is spec drift and produces no obligations at all -, so the body computes
+            #                       something the invariant's abstraction excludes: counted like a contract clause;
+            #   proof-internal    - the FIRST entry of a top-level loop, hints, lemma hypotheses: set-up code that moved
+            #                       before / after a loop, or a proof step that no longer applies (a harmless restructuring
+            #                       does that too) - no verdict about the property: undecided, the run-time channel decides;
             #   no verdict        - shape obligations that do not recognise the code (status unknown by construction).
-            INTERNAL = ("entry", "pres", "hint", "lemma", "cover")
+            INTERNAL = ("entry", "hint", "lemma", "cover")
 
             def regressed(o):
-                if o.get("item_kind") == "lemma":
-                    return False
+                if o.get("item_kind") == "lemma" or o.get("anchor_drift"):
+                    return False        # (anchor drift: ghost updates were lost with a rewritten statement - no verdict)
                 if o.get("kind") in INTERNAL and o.get("item_kind") not in ("axioms", "metric"):
                     return False        # (the `lemma` obligations of metric items are statements about the code's formula)
                 if o["hash_changed"]:
@@ -283,8 +292,10 @@ def run_check(prop, P, args):
         for o in undecided:
             lines.append("UNDECIDED obligation %s (%s %s): %s" % (
                 o["name"], o["status"], o.get("reason", ""),
+                "a statement the contract anchors ghost code on occurs a different number of times than on the baseline "
+                "tree - ghost updates were lost with a rewritten statement (spec drift)" if o.get("anchor_drift") else
                 "a proof-internal obligation (invariant / hint) - the proof as written does not cover this code"
-                if o.get("kind") in ("entry", "pres", "hint", "lemma") else
+                if o.get("kind") in ("entry", "hint", "lemma") else
                 "no verdict (unchanged item, solver budget or unrecognised shape)"))
         if exit_code == 2 and bstats is not None and bfailure is None and not berror:
             # the deductive part could not decide (unsupported syntax / spec anchor drift / solver budget) and found no
